@@ -26,6 +26,7 @@
 //! junk.k          move k's sigrefs to an unsigned commit (child of the current one) without refs/signature blobs
 //! wrongroot.k     point (k, refs/rad/root) at the identity root of ANOTHER repository (then `resign.k`)
 //! rewind.k        move k's sigrefs to its first parent
+//! back.k.R        move ref R of namespace k back to its first parent (a pure rewind of a data ref)
 //! mark.k.m        remember the current sigrefs tip of k on this side under the name m (for `refsat=k:m`)
 //! delcanon        delete the canonical (non-namespaced) refs/rad/id
 //! advdup.k.m      (S only) the server lists k's rad/sigrefs a second time, right after its own line, pointing at mark m
@@ -288,6 +289,8 @@ pub enum Verb {
     Junk(usize),
     WrongRoot(usize),
     Rewind(usize),
+    /// Move ref `R` of namespace `k` back to its first parent (a pure rewind).
+    Back(usize, String),
     Mark(usize, String),
     DelCanon,
     /// The serving side lists references in reverse name order (a hand-written server may).
@@ -407,6 +410,7 @@ impl Scenario {
                     ("junk", 3) => Verb::Junk(k(2)?),
                     ("wrongroot", 3) => Verb::WrongRoot(k(2)?),
                     ("rewind", 3) => Verb::Rewind(k(2)?),
+                    ("back", 4) => Verb::Back(k(2)?, r(3)?),
                     ("mark", 4) => Verb::Mark(k(2)?, f[3].to_string()),
                     ("delcanon", 2) => Verb::DelCanon,
                     ("revorder", 2) if side == Side::S => Verb::RevOrder,
@@ -692,6 +696,11 @@ impl Exec<'_> {
                 let tip = st.raw.find_commit(st.raw.refname_to_id(&name)?)?;
                 let parent = tip.parent_id(0)?;
                 st.raw.reference(&name, parent, true, "lab")?;
+            }
+            Verb::Back(k, r) => {
+                let name = ns_ref(&keys[*k], r);
+                let tip = st.raw.find_commit(st.raw.refname_to_id(&name)?)?;
+                st.raw.reference(&name, tip.parent_id(0)?, true, "lab")?;
             }
             Verb::Mark(k, m) => {
                 let oid = st.raw.refname_to_id(&ns_ref(&keys[*k], SIGREFS))?;
